@@ -56,7 +56,7 @@ func verifPoint(point string, args ...interface{}) {
 func VerifIndex(c *Cache) map[string]interface{} {
 	devices := map[string]interface{}{}
 	for name, d := range c.devices {
-		devices[name] = map[string]interface{}{"path": d.GetSpec().GetPath(), "priority": d.GetSpec().GetPriority()}
+		devices[name] = map[string]interface{}{"path": d.GetSpec().GetPath(), "priority": d.GetSpec().GetPriority(), "env": append([]string{}, d.ContainerEdits.Env...)}
 	}
 	specs := []interface{}{}
 	for vendor, list := range c.specs {
